@@ -628,6 +628,32 @@ func psCases(quick bool) []protox.Case {
 		dup = append(dup, p, p)
 	}
 	cs = append(cs, mk("ps", "fresh", "rtp-order/duplicated", "", packItems(dup...), -1))
+	// long histories: every pattern of three datagrams (a permutation of three consecutive sequence
+	// numbers x bodies from {garbage, pack header only, unknown bytes, a whole valid pack}) repeated 1100
+	// times - state that leaks a little per round (counters, buffers) surfaces only after many rounds
+	{
+		var sv uint16 = 0
+		valid := psPack(3600, true, &sv)[0][12:]
+		bodies := [][]byte{{0, 0}, {0, 0, 1, 0xba}, {9, 9, 9, 9}, valid}
+		perms := [][3]int{{0, 1, 2}, {0, 2, 1}, {1, 0, 2}, {1, 2, 0}, {2, 0, 1}, {2, 1, 0}}
+		for pi, pm := range perms {
+			for b0 := range bodies {
+				for b1 := range bodies {
+					for b2 := range bodies {
+						if quick && (b0+b1+b2)%2 == 1 && pi > 1 {
+							continue
+						}
+						bs := [3][]byte{bodies[b0], bodies[b1], bodies[b2]}
+						var its [][]byte
+						for k := 0; k < 3; k++ {
+							its = append(its, ref.BuildRtp(ref.Rtp{Marker: true, PT: 96, Seq: uint16(100 + pm[k]), Ts: 3600, Ssrc: 9, Payload: bs[k]}))
+						}
+						cs = append(cs, mk("ps", "rounds", fmt.Sprintf("perm%d", pi), fmt.Sprintf("bodies %d %d %d", b0, b1, b2), packItems(its...), -1))
+					}
+				}
+			}
+		}
+	}
 	big := ref.SplitRtp(append(ref.PsPackHeader(1, 0), ref.PsPes(0xE0, 1, 0, false, ref.AnnexB([][]byte{append([]byte{0x65}, body(200000)...)}))...), 96, &s2, 1, 9, 1400)
 	cs = append(cs, mk("ps", "fresh", "big-frame", "", packItems(big...), -1))
 	return cs
